@@ -24,7 +24,7 @@ RULE = ('history shards: two documents with equal structure/column names but dif
         'rendering of its document (layout index != 0) or is the canonical one of a document (one per document). Distinct: (document id, layout tuple).')
 ASSUMPTIONS = ['comment text contains no quote, #, brace or semicolon (documented pathological cases)',
                'brace-wrapped strings have no leading/trailing blanks, braces or #; array elements are bare or double-quoted',
-               'no trailing comments on enum label lines; one member declaration per line; typedefs precede rows; char[] columns have at least one non-empty value',
+               'no trailing comments on enum label lines; member declarations one per line, two per line or the whole typedef on one line (coupled to the continuation menu); typedefs precede rows; char[] columns have at least one non-empty value',
                'continuation is used on data rows only (inside a pair value it would change the value text)']
 
 # ------------------------------------------------------------------ layout menus
@@ -184,14 +184,22 @@ def render(doc, lay):
                 lines.append('}' + SEP + e['name'] + ';')
         typedefs.append(lines)
     for s in doc['structs']:
-        lines = [LEAD + 'typedef' + SEP + 'struct' + SEP + '{' + TRAILB]
+        # member declarations per physical line, coupled to the continuation menu: one / two / the whole typedef on one line
+        mstyle = {'none': 1, 'name': 2, 'every': 0}[lay['cont']]
+        decls = []
         for cn, ct in s['cols']:
             base = _basetype(ct)
             dims = ct[len(base):]
             if lay['arr'] == '<>':
                 dims = dims.replace('[', '<').replace(']', '>')
-            lines.append(LEAD + '    ' + base + SEP + cn + dims + ';' + tcomment() + TRAILB)
-        lines.append('}' + SEP + s['name'] + ';' + TRAILB)
+            decls.append(base + SEP + cn + dims + ';')
+        if mstyle == 0:
+            lines = [LEAD + 'typedef' + SEP + 'struct' + SEP + '{' + SEP + SEP.join(decls) + SEP + '}' + SEP + s['name'] + ';' + TRAILB]
+        else:
+            lines = [LEAD + 'typedef' + SEP + 'struct' + SEP + '{' + TRAILB]
+            for j in range(0, len(decls), mstyle):
+                lines.append(LEAD + '    ' + SEP.join(decls[j:j + mstyle]) + tcomment() + TRAILB)
+            lines.append('}' + SEP + s['name'] + ';' + TRAILB)
         typedefs.append(lines)
     # rows, per table, then interleave
     per = [[] for _ in doc['structs']]
